@@ -35,6 +35,13 @@ type Val struct {
 	Box  *Term
 	Addr *Addr    // static address description for pointer values (optional)
 	Fn   *FuncVal // statically known function value (optional)
+	Guard *guardRef // value was read from a lock-protected field: operations on its contents need the lock
+}
+
+type guardRef struct {
+	mutexID *Term
+	field   string
+	rw      bool
 }
 
 type AddrKind int
@@ -58,6 +65,7 @@ type Addr struct {
 	IdxT   *Term
 	ET     types.Type
 	Glob   *ssa.Global
+	Guard  *guardRef
 }
 
 type FuncVal struct {
@@ -325,6 +333,14 @@ func zeroVal(t types.Type) *Val {
 func iteVal(c *Term, a, b *Val) *Val {
 	if a == b {
 		return a
+	}
+	if a.Guard != nil && b.Guard != nil && a.Guard.mutexID == b.Guard.mutexID {
+		g := a.Guard
+		a2, b2 := *a, *b
+		a2.Guard, b2.Guard = nil, nil
+		r := *iteVal(c, &a2, &b2)
+		r.Guard = g
+		return &r
 	}
 	fa, fb := flatten(a), flatten(b)
 	if len(fa) != len(fb) {
